@@ -30,11 +30,26 @@ fn e_at(ev: &Ev, k: usize) -> EcubeM {
 }
 
 fn assignments(n: usize, support: u32, rng: &mut Rng) -> Vec<u64> {
+    let boundary = [0u64, 0xffff_ffff, u64::MAX, 0x5555_5555, 0xaaaa_aaaa, 0x8000_0000, 0x7fff_ffff, 1, 0xffff_0000, 0x0000_ffff];
     if n <= 12 {
-        return (0..1u64 << n).collect();
+        let mut v: Vec<u64> = (0..1u64 << n).collect();
+        v.extend(boundary);
+        return v;
     }
     let vars: Vec<u32> = (0..32).filter(|v| (support >> v) & 1 == 1).collect();
-    assert!(vars.len() <= 13, "harness: support too large");
+    if vars.len() > 12 {
+        // dense terms: the support cannot be enumerated; parity is linear, so the unit vectors of the support,
+        // random assignments and the boundary patterns decide it (a parity term is determined by its values
+        // on 0 and on the unit vectors)
+        let mut out: Vec<u64> = boundary.to_vec();
+        for v in &vars {
+            out.push(1u64 << v);
+        }
+        for _ in 0..256 {
+            out.push(rng.next_u64() & 0xffff_ffff);
+        }
+        return out;
+    }
     let mut out = Vec::new();
     for s in 0..(1u64 << vars.len()) {
         let mut m = rng.next_u64() & 0xffff_ffff & !(support as u64);
@@ -124,7 +139,9 @@ fn exec(ctx: &mut Ctx, ev: &Ev, rng: &mut Rng) {
             ctx.checked("e-xor-semantic", asg.len() as u64);
             ctx.check("e-xor-semantic", ok_x, ev, "xor", || format!("(a ^ b).value differs from a.value ^ b.value for a=({:#x},{}) b=({:#x},{})", ma.vars, ma.xnor, mb.vars, mb.xnor));
             ctx.check("e-not-semantic", ok_n, ev, "not", || format!("(!a).value differs from !a.value for a=({:#x},{})", ma.vars, ma.xnor));
-            let same = asg.iter().all(|m| ma.sat(*m) == mb.sat(*m));
+            // two parity terms are the same function iff they have the same variables and polarity
+            let same = ma.vars == mb.vars && ma.xnor == mb.xnor;
+            debug_assert!(!same || asg.iter().all(|m| ma.sat(*m) == mb.sat(*m)));
             ctx.check("e-eq-semantic", eq == same, ev, "eq", || format!("a == b is {} but semantic equality is {} for a=({:#x},{}) b=({:#x},{})", eq, same, ma.vars, ma.xnor, mb.vars, mb.xnor));
         }
         "eall" => {
@@ -370,6 +387,35 @@ fn main() {
                     let (x, y) = (wide(&mut rng), wide(&mut rng));
                     exec(ctx, &ev_e("esingle", 32, &[x]), &mut rng);
                     exec(ctx, &ev_e("epair", 32, &[x, y]), &mut rng);
+                    // dense terms over all 32 variables and pairs related through the algebra: the other term is
+                    // the same, the complement, the term with the complementary support (either polarity), one
+                    // variable more or less, the XOR with the parity of all variables
+                    let d = em(match rng.below(4) {
+                        0 => rng.next_u64() as u32,
+                        1 => {
+                            // exactly 16 variables
+                            let mut vs: Vec<u32> = (0..32).collect();
+                            rng.shuffle(&mut vs);
+                            vs.iter().take(16).fold(0u32, |a, v| a | (1 << v))
+                        }
+                        2 => !(1u32 << rng.below(32)),
+                        _ => (rng.next_u64() as u32) | (rng.next_u64() as u32),
+                    }, rng.bool());
+                    exec(ctx, &ev_e("esingle", 32, &[d]), &mut rng);
+                    let one_var = 1u32 << rng.below(32);
+                    for o in [
+                        d,
+                        em(d.vars, !d.xnor),
+                        em(!d.vars, d.xnor),
+                        em(!d.vars, !d.xnor),
+                        em(d.vars ^ one_var, d.xnor),
+                        em(d.vars ^ u32::MAX, !d.xnor),
+                        em(u32::MAX, d.xnor),
+                        em(d.vars.rotate_left(1), d.xnor),
+                    ] {
+                        exec(ctx, &ev_e("epair", 32, &[d, o]), &mut rng);
+                        exec(ctx, &ev_e("epair", 32, &[o, d]), &mut rng);
+                    }
                 }
                 if c == 0 {
                     for nn in 6..=10 {
